@@ -13,7 +13,16 @@ spec:      spec/Deb822Reader.tla       line-level model of the reader (SkipUsele
                                        final newline, lines of 1-2 bytes (a two-byte line = a multi-byte character that a
                                        cut may straddle).  Negative controls: KeepEmptyTail (a chunk that stops right at a
                                        newline leaves an empty line behind -> StreamParse), DropPartialLast (last line
-                                       without newline lost -> StreamParse), PerChunkLines (no carry-over -> StreamLines)
+                                       without newline lost -> StreamParse), PerChunkLines (no carry-over -> StreamLines).
+                                       The POSITION of a file object (round 7): the caller has taken k whole lines through the
+                                       object before the reader gets it (a header in front of the document; the first paragraph
+                                       via Deb822(f): OneEnd lines) -- the layered reader holds fetched-but-undelivered lines by
+                                       then (FeedUntil / RestLines).  ReadOnInvariant (line level: the first OneEnd(X) lines give
+                                       P[1], the rest Tail(P), X = dump, comments anywhere / everywhere, leading / trailing
+                                       lines, every separator shape) and PositionInvariant (under every cutting the lines
+                                       delivered from the position on are the remaining lines; they parse to P resp. Tail(P)).
+                                       Negative control BufferShortcut (the next reader goes to the layer below, skipping what
+                                       the upper layer has buffered -> PositionInvariant)
            spec/Deb822ReaderCalls.tla  independence of calls: heap of paragraph objects handed to the
                                        caller, generators in progress; ParseOneCall / IterOpen /
                                        IterNext / Mutate (the CALLER ruins one of his objects);
@@ -114,6 +123,16 @@ binding:   (a) every CASE line of TLC (document P, Dump(P), Parse(Dump(P))) is c
                the compressed file), gzip.open(..., 'rt'), SpooledTemporaryFile in memory / rolled over / text mode.  Texts
                are opaque to the specification, so the expectation is the parse TLC gave for the case (with that text);
                alignments and kinds are listed in the evidence (aligned_cases, file_object_kinds).
+               POSITIONED file objects (hardening round 7; PositionInvariant): five more input forms "<kind>+head" (real text file,
+               real binary file, TextIOWrapper over short reads, gzip.open 'rt', BufferedReader over short reads) hold a header
+               (comment / junk / blank-terminated pseudo paragraph / 8 KiB line / non-ASCII; 1-4 lines) in front of the document
+               which the caller has read through readline() / next() / read(n) before he hands the object over; they rotate with
+               all other forms in every leg (replay: one positioned rendering for every variant of the small cases and every third
+               variant otherwise, surface probes, recorded documents, call behaviours, edit histories), expectation = the parse of
+               the case.  READING ON (ReadOnInvariant + PositionInvariant): for every second variant without armor / white-space
+               lines of a case of >= 2 paragraphs: p = Deb822(f) on a file object (all 23 kinds incl. the positioned ones,
+               rotating), then list(Deb822 / Release.iter_paragraphs(f)) or iter_paragraphs of f.read() / f.readlines() /
+               list(f): [p] + rest = the parse of the case.
 verdict observables: list of (name, value) per paragraph == TLC's parse (first line trimmed,
            continuation lines verbatim) in every form; "\\n".join(p.dump()) of the re-parsed paragraphs
            == dump of the expected paragraphs; no exception; a call never returns an object it returned
@@ -164,6 +183,13 @@ API surface (notes/API_SURFACE.md): every public way of parsing / dumping a para
       File (memory / rolled over)
   other text file objects: TextIOWrapper over short reads, gzip.open 'rt',   -> the same legs (alignment also counted in characters)
       SpooledTemporaryFile text mode, text file with a 16-byte buffer
+  partially consumed file objects: a real text / binary file, TextIOWrapper   -> replay (positioned rendering of the variants), surface, trace, calls, edit
+      / BufferedReader over short reads, gzip 'rt', positioned after a           histories (forms "<kind>+head" rotate with all others)
+      header the caller read with readline() / next() / read(n)
+  Deb822(f) followed by iter_paragraphs(f) / f.read() / f.readlines() /      -> replay (api readon): cases of >= 2 paragraphs, every kind of file object
+      list(f) on the same file object
+  the exact number of lines Deb822(f) takes beyond the paragraph's           -> not judged (only that first + rest = the document; several separator lines,
+      separator                                                                  comments: whatever is left parses to the remaining paragraphs)
   documents larger than a block (512 B .. 128 KiB) with a line end / a       -> replay (f), trace (every 5th recorded document), both through every kind
       multi-byte character at a block boundary                                   of file object and (sample) the other input forms
   encoding='utf-8' / 'UTF-8' given explicitly                               -> replay surface A (rotating)
@@ -225,7 +251,7 @@ from lts import LTS, skey
 MANIFEST = dict(
     technique="TLA+ specs Deb822Reader + Deb822Stream + Deb822ReaderCalls (line-class automaton of _skip_useless_lines + split_gpg_and_payload + _internal_parser + iter_paragraphs, inverse operator Dump, clearsign Armor) model-checked by TLC (closed automaton; all bounded documents); every TLC case replayed as real dump()+re-parse in six input forms x comments x armor; prefix-closed executions of the real reader validated by TLC (TraceDeb822Reader)",
     text="The reader is specified as one automaton over eleven line classes with one named branch per branch of the code's loops. TLC checks on the closed automaton that the branch guards are total and exclusive and that EOFError coincides with an empty paragraph, and on every document of up to 3 paragraphs x 3 fields (at most 3 fields in all in the quick tier, 4-5 in the thorough tier, plus all 3x3 documents over two value shapes) x values with empty/non-empty first line and 0-2 continuation lines that Parse(Dump(P)) = P, also with a comment line at any position or before every line, with leading/trailing/multiple separator lines, and (single paragraphs) inside clearsign armor of several shapes. Each enumerated document carries TLC's expected parse; it is concretized (odd but Policy-valid names, values starting with ':' '#' '-', padded first lines, colons / PGP look-alikes / trailing blanks in continuation lines, UTF-8 whose bytes contain 0x85/0xa0), built as Deb822 objects, dumped and read back through iter_paragraphs / Deb822 / Dsc / Changes in six input forms. In the other direction random documents of up to 8 paragraphs are parsed prefix by prefix by the real code and TLC must explain every intermediate result with the automaton.",
-    note="Small-scope for the exhaustive part; payload text is sampled. API surface: every public way of parsing and dumping (positional / keyword arguments, nine classes and their iter_paragraphs, twenty-six input forms (eighteen of them kinds of file objects), fields=, strict=, encoding=, every dump variant, copy / deepcopy / pickle, gpg_stripped_paragraph) is exercised on a rotating sample with the same expectations (table in the module docstring); the strictness flag is judged with TLC's parse under either value. Character stress: non-NFC twins, case hazards, invisible characters, line-final characters over every UTF-8 continuation byte. Whitespace-only lines in other positions, junk lines and stray PGP lines are modelled and replayed but only diagnostic. Unspecified (drift, reported to the maintainers): fields= in another spelling / leaving a paragraph empty, text input with a non-UTF-8 encoding, pickle protocols 0-1, copy.copy sharing storage. Observation (unspecified for C02, recorded as drift): Dsc/Changes given a list or file whose leading comment is followed by a blank line lose the paragraph. Trusted: TLC, the concretizer (line class known by construction), the projection items()/value.split('\\n')/dump(). Size stress in both legs: names up to 300 characters, lines around 4 KiB / 8 KiB / 64 KiB, documents of 1000 paragraphs, paragraphs of 100 fields, values of 100+ continuation lines (expected results from TLC's BigInvariant configuration / trace validation with sparse observation). Independence of calls (module Deb822ReaderCalls: memo / shared-object negative controls, LTS replayed; repeated parses with caller-side mutation, interleaved generators, kept-alive objects). Renderings of one live paragraph between arbitrary public mutators (module Deb822ReaderEdits: LTS replayed with every dump variant after every step, recorded histories validated, render-memo negative control). Transport (module Deb822Stream: the lines that reach the reader do not depend on how a file object cuts the byte stream into blocks; negative controls for a block reader that leaves an empty line behind, loses the unterminated last line, or splits blocks on their own): every case and every 5th recorded document is also read through fourteen more kinds of file objects (unbuffered / tiny-buffer files, short-read raw streams, gzip / bz2 / lzma wrappers, spooled files, text layers) with a line end steered to m*2^k-1 / m*2^k / m*2^k+1 (k = 9..17, in bytes and in characters) or a multi-byte character across m*2^k. Refused calls and calls failing inside a caller-supplied object (hardening round 6): refused assignments (item / setdefault / update / merge_fields with a value ending in a newline, holding an empty line or an unindented continuation line) to present and absent names, del / pop of absent names, sort_fields(key=f) with a raising / incomparable f, dump(fd) with a failing fd are ordinary steps of the edit histories in both legs (model: outcome on the edge, paragraph UNCHANGED, every listed field has a value); Deb822(x) / iter_paragraphs(x) with a line source that raises at the first / a middle / the last line are ordinary steps of the call behaviours (model: nothing handed out, nothing changed). Thirteen spec-level negative controls and corrupted control traces must fail.",
+    note="Small-scope for the exhaustive part; payload text is sampled. API surface: every public way of parsing and dumping (positional / keyword arguments, nine classes and their iter_paragraphs, thirty-one input forms (twenty-three of them kinds of file objects, five of these positioned after a header the caller has read), fields=, strict=, encoding=, every dump variant, copy / deepcopy / pickle, gpg_stripped_paragraph) is exercised on a rotating sample with the same expectations (table in the module docstring); the strictness flag is judged with TLC's parse under either value. Character stress: non-NFC twins, case hazards, invisible characters, line-final characters over every UTF-8 continuation byte. Whitespace-only lines in other positions, junk lines and stray PGP lines are modelled and replayed but only diagnostic. Unspecified (drift, reported to the maintainers): fields= in another spelling / leaving a paragraph empty, text input with a non-UTF-8 encoding, pickle protocols 0-1, copy.copy sharing storage. Observation (unspecified for C02, recorded as drift): Dsc/Changes given a list or file whose leading comment is followed by a blank line lose the paragraph. Trusted: TLC, the concretizer (line class known by construction), the projection items()/value.split('\\n')/dump(). Size stress in both legs: names up to 300 characters, lines around 4 KiB / 8 KiB / 64 KiB, documents of 1000 paragraphs, paragraphs of 100 fields, values of 100+ continuation lines (expected results from TLC's BigInvariant configuration / trace validation with sparse observation). Independence of calls (module Deb822ReaderCalls: memo / shared-object negative controls, LTS replayed; repeated parses with caller-side mutation, interleaved generators, kept-alive objects). Renderings of one live paragraph between arbitrary public mutators (module Deb822ReaderEdits: LTS replayed with every dump variant after every step, recorded histories validated, render-memo negative control). Transport (module Deb822Stream: the lines that reach the reader do not depend on how a file object cuts the byte stream into blocks; negative controls for a block reader that leaves an empty line behind, loses the unterminated last line, or splits blocks on their own): every case and every 5th recorded document is also read through fourteen more kinds of file objects (unbuffered / tiny-buffer files, short-read raw streams, gzip / bz2 / lzma wrappers, spooled files, text layers) with a line end steered to m*2^k-1 / m*2^k / m*2^k+1 (k = 9..17, in bytes and in characters) or a multi-byte character across m*2^k. Refused calls and calls failing inside a caller-supplied object (hardening round 6): refused assignments (item / setdefault / update / merge_fields with a value ending in a newline, holding an empty line or an unindented continuation line) to present and absent names, del / pop of absent names, sort_fields(key=f) with a raising / incomparable f, dump(fd) with a failing fd are ordinary steps of the edit histories in both legs (model: outcome on the edge, paragraph UNCHANGED, every listed field has a value); Deb822(x) / iter_paragraphs(x) with a line source that raises at the first / a middle / the last line are ordinary steps of the call behaviours (model: nothing handed out, nothing changed). The position of a file object (hardening round 7; Deb822Stream: ReadOnInvariant, PositionInvariant, negative control BufferShortcut = the next reader goes to the layer below the caller's buffer): file objects from which the caller has already read a header, and reading on through the same object after Deb822(f) (iter_paragraphs(f) / f.read() / f.readlines() / list(f)), in every leg. A wrong return value seen by an API probe (pop(absent, default)) is an outcome 'other:...' the model never produces, i.e. a violation, not a machinery failure. Fourteen spec-level negative controls and corrupted control traces must fail.",
     design="5 (C02)")
 
 FORMS = ("str", "bytes", "lines_nl", "lines", "sio", "bio")
@@ -233,7 +259,8 @@ NEG_CONTROLS = [("TrimFirst", "FALSE", "RoundTrip"), ("CommentEndsValue", "TRUE"
                 ("LeadingBlankSkipped", "FALSE", "LeadingBlankInvariant"),
                 ("ArmorHeadersSkipped", "FALSE", "ArmorInvariant"), ("GpgMvLeadOK", "FALSE", "GpgMvAgrees")]
 # (constant, invariant TLC must report) of spec/Deb822Stream.tla
-STREAM_CONTROLS = [("KeepEmptyTail", "StreamParse"), ("DropPartialLast", "StreamParse"), ("PerChunkLines", "StreamLines")]
+STREAM_CONTROLS = [("KeepEmptyTail", "StreamParse"), ("DropPartialLast", "StreamParse"), ("PerChunkLines", "StreamLines"),
+                   ("BufferShortcut", "PositionInvariant")]
 GPGMV_ZONE = ("Dsc/Changes/BuildInfo given a list or file: leading comment line(s) directly followed by a "
               "blank line hide the paragraph (split_gpg_and_payload runs before _skip_useless_lines)")
 
@@ -499,7 +526,14 @@ def check_domain(lines):
 
 # secondary input forms: other iterables, real files, and every other kind of file object (transport_c02.KINDS:
 # unbuffered file, BufferedReader over short reads, raw stream, gzip / bz2 / lzma wrappers, spooled files, text layers)
-XFORMS = ("gen", "tuple", "blines", "blines_nonl", "file_t", "file_b") + tp.KINDS
+# POSITIONED file objects (spec/Deb822Stream.tla: PositionInvariant): the file holds a header -- text that is not part of the
+# document -- in front of the document, and the caller has READ that header through the file object's own API (readline() /
+# next() / read(n)) before he hands the object over: the document is what the object delivers from its position on
+POS_FORMS = ("file_t+head", "file_b+head", "text_short+head", "gzip_t+head", "buf_short+head")
+XFORMS = ("gen", "tuple", "blines", "blines_nonl", "file_t", "file_b") + tp.KINDS + POS_FORMS
+HEAD_POOL = (["# generated index, format 1"], ["junk header"], ["Format: 1.0", ""], ["#"], ["=" * 70, "# \u00e9\u4e2d \U0001f600"],
+             ["H\u00e9ader: \u00e0", "  cont", ""], ["#" + "0123456789abcdef" * 513], ["Origin: x", "Label: y", "", "# c"])
+_TEXT_BASES = ("file_t", "sio") + tp.TEXT_KINDS
 _SCRATCH = []
 
 
@@ -557,7 +591,45 @@ def make_input(form, texts, final_nl=True, enc="utf-8"):
         return open(_scratch_file(text.encode(enc)), "r", encoding=enc, newline="\n")
     if form in tp.KINDS:
         return tp.open_kind(form, text.encode(enc), enc, _scratch_file, _scratch_dir())
+    if form in POS_FORMS:
+        return positioned_input(form[:-len("+head")], texts, final_nl, enc)
     raise AssertionError(form)
+
+
+def positioned_input(base, texts, final_nl=True, enc="utf-8"):
+    """a file object of kind `base` over header + document, the header already read by the caller (whole lines, through
+    readline() / next() / read(n), rotating); which header and which way depends on the document only (replayable)"""
+    sel = len(texts) + sum(len(t) for t in texts[:3])
+    head = HEAD_POOL[sel % len(HEAD_POOL)]
+    try:
+        "\n".join(head).encode(enc)
+    except UnicodeError:
+        head = HEAD_POOL[sel % 4]
+    htext = "".join(h + "\n" for h in head)
+    text = "\n".join(texts) + ("\n" if texts and final_nl else "")
+    data = (htext + text).encode(enc)
+    if base == "file_b":
+        x = open(_scratch_file(data), "rb")
+    elif base == "file_t":
+        x = open(_scratch_file(data), "r", encoding=enc, newline="\n")
+    else:
+        x = tp.open_kind(base, data, enc, _scratch_file, _scratch_dir())
+    want = htext if base in _TEXT_BASES else htext.encode(enc)
+    way = (sel // len(HEAD_POOL)) % 3
+    if way == 0:
+        got = [x.readline() for _ in head]
+    elif way == 1:
+        got = [next(x) for _ in head]
+    else:
+        got = []
+        while sum(map(len, got)) < len(want):
+            piece = x.read(len(want) - sum(map(len, got)))
+            if not piece:
+                break
+            got.append(piece)
+    if want[:0].join(got) != want:       # the FILE OBJECT (not the library) misbehaves: the harness cannot go on
+        raise core.MachineryError("positioned input <%s+head>: the header read back is %r, written %r" % (base, got, want))
+    return x
 
 
 def close_input(x):
@@ -645,9 +717,39 @@ def run_doc(job):
         return run_keepalive(job)
     if api == "surface":
         return run_surface(job)
+    if api == "readon":
+        return run_readon(job)
     x = make_input(form, texts, job.get("final_nl", True))
     try:
         return _run_doc_on(job, x)
+    finally:
+        close_input(x)
+
+
+def run_readon(job):
+    """Deb822(f) takes ONE paragraph from a file object; the caller reads on through the same object -- with
+    iter_paragraphs(f), or f.read() / f.readlines() / list(f) parsed afterwards: first + rest = the document
+    (ReadOnInvariant: the rest parses to Tail(P); PositionInvariant: the rest is what the object delivers)"""
+    form, rest = job["form"], job["rest"]
+    exp = [[tuple(kv) for kv in p] for p in job["expected"]]
+    x = make_input(form, job["lines"], job.get("final_nl", True))
+    try:
+        first, _ = read_one("Deb822", x)
+        try:
+            if rest in ("iter", "iter_cls"):
+                later, _ = read_iter("Deb822" if rest == "iter" else "Release", x)
+            else:
+                data = x.read() if rest == "read" else x.readlines() if rest == "readlines" else list(x)
+                later, _ = read_iter("Deb822", data)
+        except Exception as e:          # the file object is unusable after the library has used it: an observation
+            later = ("EXC", "%s: %s" % (type(e).__name__, e))
+        got = [first] + later if isinstance(later, list) and not isinstance(first, tuple) else (first, later)
+        if got != exp:
+            return ("f = <%s>; Deb822(f) followed by %s gives %s" % (
+                form, {"iter": "list(Deb822.iter_paragraphs(f))", "iter_cls": "list(Release.iter_paragraphs(f))",
+                       "read": "iter_paragraphs(f.read())", "readlines": "iter_paragraphs(f.readlines())",
+                       "list": "iter_paragraphs(list(f))"}[rest], brief(got, exp)))
+        return None
     finally:
         close_input(x)
 
@@ -1320,7 +1422,10 @@ def variants(rng, base, np_, full, armor_hdrs, armor_ok=True, sig_bools=(True, F
             yield tag + "+lead-ws", lead_seq(rng, ws=True) + a, True
 
 
-STREAM_FORMS = ("str", "bytes", "sio", "bio", "file_t", "file_b") + tp.KINDS     # the text as a whole: a final newline is optional
+STREAM_FORMS = ("str", "bytes", "sio", "bio", "file_t", "file_b") + tp.KINDS + POS_FORMS     # the text as a whole: a final newline is optional
+# reading on through the same file object after Deb822(f) (spec/Deb822Stream.tla: ReadOnInvariant / PositionInvariant)
+READON_FORMS = ("file_t", "file_b", "sio", "bio") + POS_FORMS + tp.KINDS
+READON_REST = ("iter", "read", "readlines", "list", "iter_cls")
 FILE_FORMS = ("bio", "file_b", "sio", "file_t") + tp.KINDS                      # file objects
 BIN_FILE_FORMS = ("bio", "file_b") + tp.BINARY_KINDS
 TEXT_FILE_FORMS = ("sio", "file_t") + tp.TEXT_KINDS
@@ -1488,6 +1593,23 @@ def replay_case(drifts, case, rng, canonical, full, stats, armor_hdrs, armor_fie
             if form in ("str", "bytes", "sio", "bio", "lines_nl") and texts and texts[-1] != "" and rng.random() < 0.3:
                 final_nl = False
             renderings.append((form, final_nl, texts, exp_json, textT, first_dump, None, apis))
+        if base_jobs is None and not big and (full or (idx + vi) % 3 == 0):
+            # a file object the caller has already read a header from (rotating kind; PositionInvariant)
+            form = POS_FORMS[(idx // 3 + vi) % len(POS_FORMS)]
+            stats["positioned:" + form] = stats.get("positioned:" + form, 0) + 1
+            renderings.append((form, not (texts and texts[-1] != "" and (idx + vi) % 4 == 1), texts, exp_json, textT, first_dump, None,
+                               apis[:1] + ([apis[1 + (idx + vi) % (len(apis) - 1)]] if len(apis) > 1 else [])))
+        if base_jobs is None and np_ >= 2 and not diag and (not big or name == "plain") and (full or (idx + vi) % 2 == 0):
+            # reading on through the same file object after Deb822(f) (ReadOnInvariant / PositionInvariant)
+            job = {"lines": texts, "form": READON_FORMS[(idx // 2 + vi) % len(READON_FORMS)], "api": "readon",
+                   "rest": READON_REST[(idx // 2 + vi) % len(READON_REST)], "final_nl": not (texts[-1] != "" and (idx + vi) % 3 == 1),
+                   "expected": exp_json, "variant": name}
+            stats["runs"] += 1
+            stats["readon:" + job["rest"]] = stats.get("readon:" + job["rest"], 0) + 1
+            stats["readon_form:" + job["form"]] = stats.get("readon_form:" + job["form"], 0) + 1
+            msg = run_doc(job)
+            if msg:
+                bad.append((job, msg))
         if align is not None and vi in aligned_vi and lines and base_jobs is None:
             plan = align.next()
             ar = aligned_rendering(conc, case, lines, plan)
@@ -2198,10 +2320,18 @@ def refused_conc(rng, st, canonical=False):
     return c
 
 
+class LibraryObservation(Exception):
+    """an API probe saw the LIBRARY do something that no outcome class of the model covers (a wrong return value ...): an
+    observation like any other -- outcome 'other:<text>', which the model never produces, hence a VIOLATION in both
+    legs -- never a machinery failure"""
+
+
 def outcome_of(e, fault):
     """class of outcome of a call (the model's res): the caller's own exception object, or the documented class"""
     if fault.get("exc") is e:
         return "caller"
+    if isinstance(e, LibraryObservation):
+        return "other:" + str(e)
     for cls in (KeyError, ValueError, TypeError):
         if isinstance(e, cls):
             return cls.__name__
@@ -2248,7 +2378,7 @@ def _apply_edit(p, st, names, values, rank, fault):
         else:
             marker = object()
             if p.pop(name, marker) is not marker:
-                raise core.MachineryError("pop(absent name, default) did not return the default")
+                raise LibraryObservation("pop(absent name, default) did not return the default")
     elif op == "popitem_empty":
         p.popitem()
     elif op == "sort_key_fault":
@@ -2372,7 +2502,8 @@ def exec_edits(case, drifts=None):
                 return None
             return ("after %s: %s %s, specification: %s" % (
                 " ; ".join(done[:-1]) or "parsing", call,
-                "returned normally" if out == "ok" else "raised %s: %s" % (type(exc).__name__, exc),
+                "returned normally" if out == "ok" else str(exc) if isinstance(exc, LibraryObservation)
+                else "raised %s: %s" % (type(exc).__name__, exc),
                 {"ok": "the call succeeds", "caller": "the exception raised by the caller's own object comes out"}.get(res, "raises " + res)))
         want = [tuple(kv) for kv in st["expect"]]
         _, msg = check_renderings(p, want, n)
@@ -2428,7 +2559,13 @@ def record_edits(rng, nkeys, nops):
            "refused_set", "refused_set", "refused_set", "absent", "popitem_empty", "sort_key_fault", "sort_key_incomparable", "dump_fault"]
     carried = []
     for n in range(nops):
-        present = [rank[k.lower()] for k in p]
+        try:
+            present = [rank[k.lower()] for k in p]
+        except Exception as e:      # the paragraph cannot be listed any more: an unexplainable observation ends the history
+            events.append({"op": "render", "k": 1, "r": 1, "v": [""], "v2": [""], "how": "", "res": "ok", "rend": [], "same": False,
+                           "obs": [{"k": 0, "v": ["listing the paragraph raised %s: %s" % (type(e).__name__, e)]}],
+                           "args": ["dump"], "style": 0, "conc": None})
+            break
         absent = [k for k in names if k not in present]
         op = rng.choice(ops)
         k = rng.choice(sorted(names))
@@ -2755,7 +2892,9 @@ def run(ctx):
     ctx.extra["model"]["transport(Deb822Stream)"] = {
         "documents": res["stream"].distinct + (res["stream_wide"].distinct if "stream_wide" in res else 0),
         "BlockSizes": [2, 3, 4], "phases": "every", "short_reads": "one more cut anywhere; byte by byte",
-        "families": "dump, comment before every line, leading + trailing lines, armor (single paragraphs)"}
+        "families": "dump, comment before every line, leading + trailing lines, armor (single paragraphs)",
+        "position": "k lines already handed to the caller (junk / comment / blank-terminated header: rest = P; OneEnd lines = Deb822(f): "
+                    "rest = Tail(P)) under every cutting (PositionInvariant); ReadOnInvariant over comments / leads / trails / separators"}
     cases = res["bnd_docs"].printed.get("CASE", [])
     if len(cases) != res["bnd_docs"].distinct or any(not isinstance(c, dict) for c in cases):
         raise core.MachineryError("bounded configuration: %d CASE lines for %d states" % (len(cases), res["bnd_docs"].distinct))
